@@ -38,6 +38,9 @@ func runC05(r *Run) {
 		c05Perm(r)
 	}
 	// a violation in one family ends the run: the later families would only pay hang timeouts
+	if r.Want("backlog") && r.NumViolations() == 0 {
+		c05Backlog(r)
+	}
 	if r.Want("alloc") && r.NumViolations() == 0 {
 		c05Alloc(r)
 	}
